@@ -77,16 +77,21 @@ def LB.roll (s : LB) : LB :=
     let rollLen := s.buf.length - s.pos
     { s with buf := s.buf.drop s.pos, pos := 0, last := rollLen }
 
+/-- `ensure_capacity`: `let len = std::cmp::max(1, self.buf.len());` (source-anchored, checks/C02.json) -/
+def growBase : Nat := 1
+/-- `ensure_capacity`: `BufferAllocation::Eager => len * 2` and `min(len * 2, limit - used)` (source-anchored) -/
+def growFactor : Nat := 2
+
 /-- `LineBuffer::ensure_capacity`; `none` is `alloc_error`. -/
 def LB.ensureCapacity (s : LB) : Option LB :=
   if s.buf.length < s.len then some s
   else
-    let len := max 1 s.len
+    let len := max growBase s.len
     match s.cfg.alloc with
-    | .eager => some { s with len := s.len + len * 2 }
+    | .eager => some { s with len := s.len + len * growFactor }
     | .error limit =>
       let used := s.len - s.cfg.capacity
-      let n := min (len * 2) (limit - used)
+      let n := min (len * growFactor) (limit - used)
       if n = 0 then none else some { s with len := s.len + n }
 
 /-! ### byte search helpers (`bstr::ByteSlice::{find_byte, rfind_byte}`) -/
@@ -174,10 +179,16 @@ def readFull : Nat → Nat → Nat → List Step → Nat × List Step
           let (g, sc') := readFull fuel (need - k) (rem - k) rest
           (k + g, sc')
 
+/-- `encoding_rs_io` 0.1.7 `util.rs`: `let mut buf = [0u8; 3];` in `BomPeeker::peek_bom` (the crate
+version is source-anchored through `/repo/Cargo.lock`, checks/C02.json) -/
+def bomPeekLen : Nat := 3
+/-- the `encoding_rs_io` release whose `BomPeeker` is modelled here (source-anchored) -/
+def bomPeekerCrateVersion : String := "0.1.7"
+
 /-- The reader as `search_reader` sees it through the pass-through decoder (no BOM, no encoding):
 the first up to 3 bytes were pulled out by the peeker. -/
 def Reader.withBomPeek (r : Reader) : Reader :=
-  let (got, sc) := readFull (r.script.length + 4) 3 r.data.length r.script
+  let (got, sc) := readFull (r.script.length + 4) bomPeekLen r.data.length r.script
   { data := r.data, script := sc, bom := got }
 
 /-! ### fill -/
